@@ -89,7 +89,9 @@ func cmdVerify(args []string) int {
 	if *tier == "thorough" {
 		opts = VerifyOpts{LiveTimeoutMs: 5000, RaceTimeoutS: 60, PathCap: 20000, InlineDepth: 3}
 	}
-	defer os.RemoveAll(scratchDir())
+	if os.Getenv("GOVC_KEEP") == "" {
+		defer os.RemoveAll(scratchDir())
+	}
 	var todo []*FuncContract
 	var keys []string
 	for k := range eng.contracts.Funcs {
@@ -403,7 +405,9 @@ func cmdSweep(args []string) int {
 		return 2
 	}
 	opts := VerifyOpts{LiveTimeoutMs: 1000, RaceTimeoutS: 5, PathCap: 1500, InlineDepth: 1}
-	defer os.RemoveAll(scratchDir())
+	if os.Getenv("GOVC_KEEP") == "" {
+		defer os.RemoveAll(scratchDir())
+	}
 	var keys []string
 	for k := range eng.fnByKey {
 		if !strings.HasPrefix(k, *pkgSub) || (*only != "" && !strings.Contains(k, *only)) {
